@@ -83,6 +83,14 @@ func main() {
 			os.Exit(2)
 		}
 		o := engine.RunProperty(pd, *repo, *tier, cache)
+		if *tier == "thorough" {
+			// kill-matrix of this property's rules (tests the checker; reported in evidence only)
+			if rs, err := engine.RunKillMatrix([]string{id}, *repo, *verif, ff); err == nil {
+				o.Extra["kill_matrix"] = engine.Summarise(rs)
+			} else {
+				o.Extra["kill_matrix"] = map[string]interface{}{"error": err.Error()}
+			}
+		}
 		if o.Emit(*verif, ff) != 0 {
 			code = 1
 		}
